@@ -4,7 +4,8 @@ PROPS["C03"] = dict(
     rule="case = op list over Create/Get/GetMany/Put/PutMany/CasByVersion/Delete/ListKeys with keys {a,b,ab,a/b,k1}, values {nil,'',x,yy}, "
          "expiry none/+1h/+100h (the clock does not move here), CAS version current/previous/empty/garbage, GetMany/PutMany lists of 0..4 "
          "keys with repeats, 14 glob patterns from the subset gobwas/glob and Redis MATCH agree on; exhaustive part: all lists to the depth in "
-         "exhaustive_parts over a 29-op alphabet on 2 keys. Excluded on purpose: keys with a leading '/', glob syntax only one side knows. "
+         "exhaustive_parts over a 29-op alphabet on 2 keys. A third unit runs the in-memory backend alone against the model with records written already expired (Redis clamps TTLs to >= 1 ms and "
+         "cannot take part). Excluded on purpose: keys with a leading '/', glob syntax only one side knows. "
          "non-trivial = some op met an existing key with an outcome class different from the empty store (ErrExist, conflict, overwrite, "
          "delete-existing, ListKeys with a match); distinct = hash of the op list",
     assumptions=["reference model written from the comments of kvs.Storage and the C03 statement; nil and empty values are identified; "
@@ -12,6 +13,7 @@ PROPS["C03"] = dict(
                  "Redis is the in-process miniredis v2.30.2 server"],
     units=[
         dict(name="exhaustive", run="^TestC03Exhaustive$", shards=(1, 16), timeout=(300, 1500)),
+        dict(name="inmemexpired", run="^TestC03InmemExpired$", checks=(3000, 20000), shards=(1, 8), timeout=(300, 1500)),
         dict(name="rapid", run="^TestC03Rapid$", checks=(2500, 15000), shards=(4, 16), timeout=(300, 1500)),
     ],
 )
